@@ -126,9 +126,10 @@ def apply_fault(case, fault, ch):
         return bytes(b), {'fault': 'undefined descriptor substituted', 'index': i, 'was': case.ids[i], 'now': u}
     secs = [k for k in (1, 2, 3, 4) if k in info['offsets'] and k in info['lengths']]
     k = ch.choice(secs)
-    delta = ch.int(1, 3)
+    # mostly off by a few octets; sometimes by more than the stop signature / the following section is long
+    delta = ch.weighted([(5, ch.int(1, 3)), (3, ch.int(4, 9)), (2, ch.choice([12, 16, 23, 32, 40, 64, 100, 250]))])
     if fault == 'length_minus':
-        delta = -delta
+        delta = -min(delta, info['lengths'][k])
     off = info['offsets'][k]
     new = info['lengths'][k] + delta
     b[off:off + 3] = new.to_bytes(3, 'big')
